@@ -115,7 +115,7 @@ def agrees (v formula unit : F) : Bool :=
   else if v.isInf || formula.isInf then v == formula
   else
     let scale := max (max v.abs formula.abs) unit.abs
-    (v - formula).abs ≤ 1e-9 * scale || sameBits v formula
+    (v - formula).abs ≤ 1e-9 * scale + 1e-300 || sameBits v formula   -- 1e-300: results in the subnormal range lose all relative accuracy
 
 /-- `nEqN`: whether n = N is known exactly (direct calls; leaves above 2^53 are rounded), else read from the leaves -/
 partial def checkNodes (inst : ScoreField F) (t : Expl F) (nEqN : Option Bool := none) : List String :=
@@ -301,10 +301,12 @@ partial def qMatches (d : Doc) : Q → Bool
       | none => false
   | .bool _ mn musts shoulds nots =>
       let k := (shoulds.filter (qMatches d)).length
+      -- `BooleanQuery.Searcher`: minShould > 0 with no should clause at all cannot be satisfied (MatchNone)
+      !(shoulds.isEmpty && mn > 0) &&
       musts.all (qMatches d) && !(nots.any (qMatches d)) &&
         (if musts.isEmpty then
            (if shoulds.isEmpty then true else k ≥ max mn 1)
-         else shoulds.isEmpty || k ≥ mn)   -- without should clauses there is no should searcher and minShould is not consulted
+         else k ≥ mn)
 
 /-- expected structure of a hit's explanation, children of sums in canonical order -/
 inductive Sk where
@@ -567,6 +569,13 @@ def c17step (_ : Unit) (op : String) (impl : String) : Unit × String :=
             (m, verdictOf (m == impl) (rootFail ++ fails ++ partFail) (ulpBranch (logUlp t) :: brs ++ partBr ++ kindBr))
           | _, _ => ("unparsable-tree", "ok")
         | _ => ("unparsable-result", "ok")
+    | ["matchset", corpus, query, _kind] =>
+        match parseQ query.toList with
+        | some (q, []) =>
+          let ids := ((parseCorpus corpus).flatten.filter (qMatches · q)).map (·.id)
+          let ids := (ids.toArray.qsort (· < ·)).toList
+          ((if ids.isEmpty then "-" else ",".intercalate ids), "ok br=" ++ (if ids.isEmpty then "matchset-empty" else "matchset-nonempty"))
+        | _ => ("model-cannot-parse", "ok")
     | "case" :: _ => ("case", "na")
     | _ => ("bad-op", "na")
   ((), out.1 ++ sep ++ out.2)
